@@ -2,7 +2,7 @@
    The same boolean function is (a) proved true of every reachable state of the
    LTS (Proofs/SyncLockProofs.v) and (b) evaluated on what the real plugins and
    the real runtime store observed (Run/RunSyncLock.v). *)
-From Coq Require Import String List Bool Arith.
+From Coq Require Import String Ascii List Bool Arith.
 From NRI Require Import Base.Strs Base.Assoc Model.SyncLock.
 Import ListNotations.
 Open Scope string_scope.
@@ -37,7 +37,7 @@ Definition exactly_once_b (o : observation) : bool :=
 (* projection of a model state to an observation *)
 Definition snap_of (pc : ppc) : list cid :=
   match pc with
-  | PSnapshot ids | PActivated ids | PDone ids => ids
+  | PSnapshot ids | PActivated ids | PDone ids | PClosed ids => ids
   | _ => []
   end.
 
@@ -50,3 +50,18 @@ Definition obs_of_state (s : state) : observation :=
                                     po_registered := smem (fst e) (active s);
                                     po_snapshot := snap_of (snd e);
                                     po_creates := rev (creates_of (fst e) (recv s)) |}) (plugs s) |}.
+
+(* plugin ids of the model are INSTANCES (connections); the harness calls the k-th instance (k > 1) of the
+   plugin registered as "idx-name" "idx-name#k".  [name_of] is what plugin.name() returns for it. *)
+Fixpoint name_of (p : pid) : string :=
+  match p with
+  | EmptyString => EmptyString
+  | String c r => if Ascii.eqb c "#"%char then EmptyString else String c (name_of r)
+  end.
+
+(* r.plugins: the live instances and the closed ones not yet dropped *)
+Definition listed (s : state) : list pid := active s ++ zombies s.
+
+(* NOT the code: a clean-up that identifies closed plugins by NAME (for the refuted variant in Properties/C08.v) *)
+Definition drop_closed_by_name (closed l : list pid) : list pid :=
+  filter (fun q => negb (smem (name_of q) (map name_of closed))) l.
